@@ -92,8 +92,8 @@ mutual
             · simp [dispatch, hm', hp', hf', hi, hs, Acc.add, participants, flowBlocks, floatsOf, flowLines, flowAll,
                 inlineOf, BProps.inFlow]
             · have hi' : pr.inlineBlock = false := by simpa using hi
-              cases hb : pr.blockLevel <;> cases hl : pr.hasLines <;> cases ht : pr.text <;>
-                simp [dispatch, hm', hp', hf', hi', hb, hl, ht, hch, insertAt_append, Acc.add, participants, flowBlocks,
+              cases hb : pr.blockLevel <;> cases hl : pr.hasLines <;> cases ht : pr.text <;> cases hc : pr.tableCell <;>
+                simp [dispatch, hm', hp', hf', hi', hb, hl, ht, hc, hch, insertAt_append, Acc.add, participants, flowBlocks,
                   floatsOf, flowLines, flowAll, inlineOf, BProps.inFlow, List.append_assoc]
 end
 
